@@ -462,6 +462,20 @@ def enumerator (s : Src) : Except Err Int := do
   let t ← elaborate s
   eval t
 
+/-- `CContext._calculate_enum_values`: `value = 0`; for each constant: `if constant.value: value =
+    eval_expr(constant.value)`; record `value`; `value += 1`.  (`constant.value` is an AST node or `None`: the
+    test is on the presence of `= expr`, not on the value it evaluates to.) -/
+def enumValuesFrom (value : Int) : List (Option Src) → Except Err (List Int)
+  | [] => .ok []
+  | item :: rest => do
+      let v ← (match item with
+        | some s => enumerator s
+        | none => pure value)
+      let vs ← enumValuesFrom (v + 1) rest
+      pure (v :: vs)
+
+def enumValues (l : List (Option Src)) : Except Err (List Int) := enumValuesFrom 0 l
+
 /-- `CSemantics.size_t_type` on x86_64 (`long`, because `sizeof(int) != sizeof(int*)`) -/
 def sizeT : Ty := .long
 
